@@ -34,6 +34,23 @@ with tempfile.TemporaryDirectory() as td:
             if ok:
                 passed.add("%s::%s" % (tc.get("classname"), tc.get("name")))
 missing = sorted(stable - passed)
+# the suite draws unseeded random channels in a few tests: a stable test that fails once
+# is re-run on its own (up to 3 times) before it counts as not passing
+flaky = []
+for m in list(missing)[:10]:
+    mod, _, rest = m.partition("::")
+    parts = mod.split(".")
+    nodeid = "/".join(parts[:-1]) + ".py::" + parts[-1] + "::" + rest
+    ok = 0
+    for _ in range(3):
+        r = subprocess.run(["/venv/bin/python", "-B", "-m", "pytest", "-q", "-p", "no:cacheprovider", nodeid],
+                           cwd=repo, stdout=subprocess.PIPE, stderr=subprocess.STDOUT, text=True)
+        ok += (r.returncode == 0)
+    if ok == 3:
+        flaky.append(m)
+        missing.remove(m)
+if flaky:
+    print("flaky (failed once in the full run, passed 3/3 on re-run):", flaky)
 print("baseline: %d stable tests, %d passed now, %d stable tests NOT passing"
       % (len(stable), len(passed), len(missing)))
 for m in missing[:40]:
